@@ -139,6 +139,41 @@ def gen_resample_program(rng):
     return prog + out
 
 
+def gen_empty_selection_program(rng):
+    """a selection that keeps at least one row but not a single cell (a column range beyond every row, rows that are all empty),
+    and then -- before anything else has looked at it -- an integer row / an element-wise read / a further selection of it"""
+    lens = [rng.choice([0, 0, 1, 2, 3]) for _ in range(rng.randint(2, 5))]
+    if 0 not in lens:
+        lens[rng.randrange(len(lens))] = 0
+    if sum(lens) == 0:
+        lens[0] = 2
+    n = len(lens)
+    cnt = [0]
+    def fresh():
+        cnt[0] += 1; return 400 + cnt[0]
+    rows = [[fresh() % 70 for _ in range(l)] for l in lens]
+    empties = [i for i, l in enumerate(lens) if l == 0]
+    m = max(lens)
+    sel = rng.choice([
+        {"r": {"t": "all"}, "c": {"t": "slice", "a": m + rng.randint(0, 3), "b": None, "k": rng.choice([None, 2, 3])}},
+        {"r": {"t": "all"}, "c": {"t": "slice", "a": None, "b": -1 - m, "k": -1}},
+        {"r": {"t": "list", "is": [rng.choice(empties) for _ in range(rng.randint(1, 3))]}, "c": None},
+        {"r": {"t": "slice", "a": empties[0], "b": empties[0] + 1, "k": None}, "c": {"t": "slice", "a": None, "b": None, "k": -1}},
+        {"r": {"t": "slice", "a": 1, "b": None, "k": None}, "c": {"t": "slice", "a": m, "b": None, "k": None}}])
+    prog = [{"s": "new", "rows": rows}, {"s": "select", "x": 0, "idx": sel}]
+    first = rng.choice(["row", "row", "row_neg", "sub", "sum", "read"])
+    if first in ("row", "row_neg"):
+        prog.append({"s": "read_idx", "x": 1, "idx": {"r": {"t": "int", "i": 0 if first == "row" else -1}, "c": None}})
+    elif first == "sub":
+        prog.append({"s": "select", "x": 1, "idx": {"r": {"t": "slice", "a": None, "b": None, "k": -1}, "c": None}})
+        prog.append({"s": "read", "x": 2})
+    elif first == "sum":
+        prog.append({"s": "read_sum", "x": 1})
+    prog.append({"s": "read", "x": 1})
+    prog.append({"s": "read_meta", "x": 1})
+    return prog
+
+
 class RefStore:
     """reference semantics: every variable denotes a cell holding plain rows; aliases share the cell"""
     def __init__(self):
